@@ -27,6 +27,7 @@ type Gen struct {
 	PExoticNames  int
 	PMalformed    int // share of byte-soup argv
 	PSingleLetter int
+	PInvalid      int // share of definitions made invalid on purpose (must panic)
 	PClean        int // share of argv made only of valid option uses, commands and words
 	Kinds         []int
 	Modes         []int
